@@ -23,6 +23,8 @@ SubSeqOf(want, got) ==
 Visible(want, obs) == \A i \in 1..Len(want) :
                         /\ want[i].k \in DOMAIN obs
                         /\ SubSeqOf(want[i].v, obs[want[i].k])
+(* ... and under its own carrier nothing is added to a key the program set: "values unchanged" *)
+Exact(want, obs) == \A i \in 1..Len(want) : want[i].k \in DOMAIN obs /\ obs[want[i].k] = want[i].v
 (* two observed maps seen as one (gRPC-Web folds trailers into headers when there is no body) *)
 VisibleIn2(want, a, b) == \A i \in 1..Len(want) :
                             \/ want[i].k \in DOMAIN a /\ SubSeqOf(want[i].v, a[want[i].k])
@@ -100,7 +102,7 @@ TCsaw ==
   \* C13: what the application was handed is still intact when it looks again later
   /\ ("late_ids" \in DOMAIN Cur => Cur.late_ids = Cur.ids /\ Cur.late_msg = Cur.err.msg)
   /\ IF csaw'.ok
-     THEN IF csaw'.carried >= 1 THEN Visible(csaw'.hdr, Cur.hdr) /\ Visible(csaw'.trl, Cur.trl)
+     THEN IF csaw'.carried >= 1 THEN Exact(csaw'.hdr, Cur.hdr) /\ Exact(csaw'.trl, Cur.trl)
           ELSE VisibleIn2(csaw'.hdr, Cur.hdr, Cur.trl) /\ VisibleIn2(csaw'.trl, Cur.hdr, Cur.trl)
      ELSE /\ Cur.err.code = csaw'.code
           /\ (neg.ok => /\ (csaw'.msg # "library" => Cur.err.msg = csaw'.msg)
